@@ -57,7 +57,7 @@ REQUIRED = {"exclude.formula": {"quick": 100000, "thorough": 3000000}, "run_is_n
             "composite.any_excludes": 1000, "custom.schema": 500, "provider.composite_cache": 50,
             "provider.lazy_reevaluated": 50,
             "python.providers": 20, "unknown_or_plain_never_excludes": 1000}
-REQUIRED_SEEN = {"custom_notation_given_by": ["arguments", "subclass_attributes", "subclass_separator_attribute"]}
+REQUIRED_SEEN = {"composite_members_given_as": ["list", "tuple", "generator", "filter", "dict_values"], "custom_notation_given_by": ["arguments", "subclass_attributes", "subclass_separator_attribute"]}
 EXHAUSTIVE = True
 EXHAUSTIVE_SCOPE = "all tag multisets up to the size bound over the pool x all provider configurations of the grid"
 NSHARDS = {"quick": 8, "thorough": 16}
@@ -200,7 +200,13 @@ class Lab(object):
             p1 = {k: data[k] for k in keys[::2]}
             p2 = {k: data[k] for k in keys[1::2]}
             shadow = {k: "shadowed-%s" % k for k in keys[::2]}   # later provider must lose
-            return tm.CompositeActiveTagValueProvider([p1, tm.ActiveTagValueProvider(p2), shadow])
+            members = [p1, tm.ActiveTagValueProvider(p2), shadow]
+            self.ncomposite = getattr(self, "ncomposite", 0) + 1
+            # the member providers may be handed over as any iterable (list, tuple, generator, filter object, dict view)
+            how = self.ncomposite % 5
+            given = (members, tuple(members), (m for m in members), filter(None, members), {i: m for i, m in enumerate(members)}.values())[how]
+            self.last_composite_given_as = ("list", "tuple", "generator", "filter", "dict_values")[how]
+            return tm.CompositeActiveTagValueProvider(given)
         raise ValueError(flavour)
 
 
@@ -291,6 +297,8 @@ def run(spec, mon):
                       and len(bystander.tag_matchers) == 0,
                       lambda: dict(config=config, bystander_members=len(bystander.tag_matchers)))
         mon.seen("provider_flavour", flavour)
+        if flavour == "composite":
+            mon.seen("composite_members_given_as", lab.last_composite_given_as)
         for mi, ms in enumerate(multisets):
             if tier == "quick" and len(ms) == 3 and (mi + ci) % 7:
                 continue
